@@ -82,6 +82,11 @@ chk("C15", "exploration", "exhaustive enumeration of SF x BW x chip variant agai
     "Trusted: the decode positions of the LDRO bit (SX126x SetModulationParams byte 4, SX1276 RegModemConfig3 bit 3, SX1272 RegModemConfig1 bit 0, LR11xx SetModulationParam byte 4). Where nominal and true bandwidth disagree (SF8/15.6 kHz) only agreement with the airtime calculator is required.",
     "DESIGN.md §3 C15")
 
+chk("C18", "exploration", "exhaustive enumeration of environment answers (chip-reported length x offset x status) against the real drivers over datasheet chip models",
+    "Behavioural models of SX1262, SX1276 and SX1272 answer every reported length 0..255 x offset (all 256 in thorough) x status after a reception; the real driver fetches the packet through LoRa::rx (single / continuous), LoRa::get_rx_result and the LoRaWAN radio adapter into caller buffers of 0/1/12/64/255/256 bytes surrounded by canaries, in explicit- and implicit-header mode. A returned packet must have the chip-defined length, not exceed the buffer, equal the chip buffer bytes at the reported position (wrapping at 256) and leave the rest of the memory untouched; errors are acceptable; unwinding is not.",
+    "Trusted: chips.rs (buffer/FIFO addressing per datasheet). The async_device level (its own 256-byte buffer) is argued, not exercised.",
+    "DESIGN.md §3 C18")
+
 ALL = ["C%02d" % i for i in range(1, 21)]
 NA_REASON = "check not built yet in this round; see DESIGN.md for the planned bounded exploration"
 
